@@ -480,7 +480,8 @@ def f_mutex(rng, sid):
         if k == fail_at or rng.random() < 0.03:
             opt = rng.choice([" lk=1", " ul=1", " lk=-7", " ul=3"])
         if r < 0.6:
-            sc.op("svc 1 %d h=%s" % (rng.random() < 0.9, ",".join(_answer(rng, sc, False, True) for _ in range(2))) + opt)
+            sc.op("svc 1 %d h=%s v=%s" % (rng.random() < 0.9, ",".join(_answer(rng, sc, False, True) for _ in range(2)),
+                                          rng.choice(["0", "0", "0", "1", "-1"])) + opt)
         elif r < 0.7:
             sc.op("trig %d %d" % (rng.randrange(n), rng.choice([1, 3])) + opt)
         elif r < 0.74:
